@@ -32,6 +32,27 @@ EDITS = {
    "	scale := math.Pow(10, float64(precision))\n	invScale := 1 / scale\n	tmpPaths := ScalePathsDToPaths64(paths, scale)\n	r := ScaleRectD(rect, scale)\n\n	rc := NewRectClip64(r)\n	return ScalePaths64ToPathsD(rc.Execute(tmpPaths), invScale)")],
  "E17-if-else-swap-buildPaths": [("clipper_base.go", "		if outrec.isOpen {\n			if c.buildPath(outrec.pts, c.reverseSolution, true, &path) {\n				*solutionOpen = append(*solutionOpen, path)\n			}\n		} else {\n			c.cleanCollinear(outrec)\n			if c.buildPath(outrec.pts, c.reverseSolution, false, &path) {\n				*solutionClosed = append(*solutionClosed, path)\n			}\n		}",
    "		if !outrec.isOpen {\n			c.cleanCollinear(outrec)\n			if c.buildPath(outrec.pts, c.reverseSolution, false, &path) {\n				*solutionClosed = append(*solutionClosed, path)\n			}\n		} else {\n			if c.buildPath(outrec.pts, c.reverseSolution, true, &path) {\n				*solutionOpen = append(*solutionOpen, path)\n			}\n		}")],
+ "E19-rename-index-executeInternalPath64": [("rect_clip.go", "	prev := Inside\n	i := 1\n	highI := len(path) - 1\n\n	var loc Location\n	var ok bool\n	if loc, ok = getLocation(r.rect, path[0]); !ok {\n		prev, ok2 := getLocation(r.rect, path[i])\n		for !ok2 {\n			i++\n			if i > highI {\n				break\n			}\n			prev, ok2 = getLocation(r.rect, path[i])\n		}\n		if i > highI {",
+   "	prev := Inside\n	idx := 1\n	highI := len(path) - 1\n\n	var loc Location\n	var ok bool\n	if loc, ok = getLocation(r.rect, path[0]); !ok {\n		prev, ok2 := getLocation(r.rect, path[idx])\n		for !ok2 {\n			idx++\n			if idx > highI {\n				break\n			}\n			prev, ok2 = getLocation(r.rect, path[idx])\n		}\n		if idx > highI {"),
+   ("rect_clip.go", "		if prev == Inside {\n			loc = Inside\n		}\n		i = 1\n	}\n\n	if loc == Inside {\n		r.add(path[0], false)\n	}\n\n	for i <= highI {\n		prev = loc\n		r.getNextLocation(path, &loc, &i, highI)\n\n		if i > highI {\n			break\n		}\n\n		prevPt := path[i-1]\n		crossingLoc := loc\n\n		ip, ok := getIntersection(r.rectPath, path[i], prevPt, &crossingLoc)\n		if !ok {\n			i++\n			continue\n		}",
+   "		if prev == Inside {\n			loc = Inside\n		}\n		idx = 1\n	}\n\n	if loc == Inside {\n		r.add(path[0], false)\n	}\n\n	for idx <= highI {\n		prev = loc\n		r.getNextLocation(path, &loc, &idx, highI)\n\n		if idx > highI {\n			break\n		}\n\n		prevPt := path[idx-1]\n		crossingLoc := loc\n\n		ip, ok := getIntersection(r.rectPath, path[idx], prevPt, &crossingLoc)\n		if !ok {\n			idx++\n			continue\n		}"),
+   ("rect_clip.go", "			if ip2, ok2 := getIntersection(r.rectPath, prevPt, path[i], &crossingLoc); ok2 {", "			if ip2, ok2 := getIntersection(r.rectPath, prevPt, path[idx], &crossingLoc); ok2 {")],
+ "E20-owner-branches-reordered-processHorzJoins": [("clipper_base.go", "				if path1InsidePath2(or1.pts, or2.pts) {\n					or2.pts, or1.pts = or1.pts, or2.pts\n					fixOutRecPts(or1)\n					fixOutRecPts(or2)\n					or2.owner = or1\n				} else if path1InsidePath2(or2.pts, or1.pts) {\n					or2.owner = or1\n				} else {\n					or2.owner = or1.owner\n				}",
+   "				oldInNew := path1InsidePath2(or1.pts, or2.pts)\n				if oldInNew {\n					or2.pts, or1.pts = or1.pts, or2.pts\n					fixOutRecPts(or1)\n					fixOutRecPts(or2)\n				}\n				if oldInNew || path1InsidePath2(or2.pts, or1.pts) {\n					or2.owner = or1\n				} else {\n					or2.owner = or1.owner\n				}")],
+ "E21-fresh-pathOut-make": [("offset.go", "	for _, p := range group.inPaths {\n		co.pathOut = Path64{}", "	for _, p := range group.inPaths {\n		co.pathOut = make(Path64, 0, 8)")],
+ "E22-named-args-InflatePaths64": [("offset.go", "	co := NewClipperOffset(cfg.miterLimit, cfg.arcTolerance, false, false)\n	co.AddPaths(paths, joinType, endType)\n	solution := make(Paths64, 0)", "	ml, at := cfg.miterLimit, cfg.arcTolerance\n	co := NewClipperOffset(ml, at, false, false)\n	co.AddPaths(paths, joinType, endType)\n	solution := make(Paths64, 0)")],
+ "E23-hasOpenPaths-or-assign": [("clipper_base.go", "	if isOpen {\n		c.hasOpenPaths = true\n	}\n\n	c.isSortedMinimaList = false", "	c.isSortedMinimaList = false\n	if isOpen {\n		c.hasOpenPaths = true\n	}\n")],
+ "E24-GetBounds64-len-guard": [("clipper.go", "func GetBounds64(path Path64) Rect64 {\n	result := NewRect64Invalid(false)", "func GetBounds64(path Path64) Rect64 {\n	if len(path) == 0 {\n		return Rect64{}\n	}\n	result := NewRect64Invalid(false)")],
+ "E25-vertex-filter-continue-form": [("engine.go", "			if v0 == nil {\n				v0 = vertexList.Add(pt, None, nil)\n				prevV = v0\n			} else if prevV.pt != pt {\n				currV := vertexList.Add(pt, None, prevV)\n				prevV.next = currV\n				prevV = currV\n			}",
+   "			if v0 == nil {\n				v0 = vertexList.Add(pt, None, nil)\n				prevV = v0\n				continue\n			}\n			if prevV.pt != pt {\n				currV := vertexList.Add(pt, None, prevV)\n				prevV.next = currV\n				prevV = currV\n			}")],
+ "E26-Inside-arm-case-order": [("rect_clip.go", "			case path[*i].X < r.rect.left:\n				*loc = Left\n			case path[*i].X > r.rect.right:\n				*loc = Right\n			case path[*i].Y > r.rect.bottom:\n				*loc = Bottom\n			case path[*i].Y < r.rect.top:\n				*loc = Top",
+   "			case path[*i].X > r.rect.right:\n				*loc = Right\n			case path[*i].X < r.rect.left:\n				*loc = Left\n			case path[*i].Y < r.rect.top:\n				*loc = Top\n			case path[*i].Y > r.rect.bottom:\n				*loc = Bottom")],
+ "E27-buildTree-range-free-while": [("clipper_base.go", "	i := 0\n	for i < len(c.outrecList) {\n		outrec := c.outrecList[i]\n		i++\n		if outrec.pts == nil {\n			continue\n		}\n\n		if outrec.isOpen {\n			openPath := make(Path64, 0)",
+   "	for i := 0; i < len(c.outrecList); i++ {\n		outrec := c.outrecList[i]\n		if outrec.pts == nil {\n			continue\n		}\n\n		if outrec.isOpen {\n			openPath := make(Path64, 0)")],
+ "E28-resetHorzDirection-named-results": [("clipper_base.go", "		leftX, rightX, isLeftToRight = resetHorzDirection(horz, vertexMax)\n	}", "		l2, r2, ltr := resetHorzDirection(horz, vertexMax)\n		leftX, rightX, isLeftToRight = l2, r2, ltr\n	}")],
+ "E29-quantiser-preallocated-result-name": [("clipper.go", "func ScalePathDToPath64(path PathD, scale float64) Path64 {\n	result := make(Path64, len(path))", "func ScalePathDToPath64(path PathD, scale float64) Path64 {\n	n := len(path)\n	result := make(Path64, n)")],
+ "E30-intersectEdges-difference-demorgan": [("clipper_base.go", "			if (getPolyType(ae1) == Clip && e1Wc2 > 0 && e2Wc2 > 0) ||\n				(getPolyType(ae1) == Subject && e1Wc2 <= 0 && e2Wc2 <= 0) {\n				c.addLocalMinPoly(ae1, ae2, pt, false)\n			}",
+   "			isClipEdge := getPolyType(ae1) == Clip\n			if (isClipEdge && e1Wc2 > 0 && e2Wc2 > 0) ||\n				(!isClipEdge && !(e1Wc2 > 0) && !(e2Wc2 > 0)) {\n				c.addLocalMinPoly(ae1, ae2, pt, false)\n			}")],
  "E18-comment-and-blank-lines": [("rect_clip.go", "func (r *RectClip64) getNextLocation(path Path64, loc *Location, i *int, highI int) {\n	switch *loc {", "// getNextLocation advances i to the next vertex that leaves the current location.\nfunc (r *RectClip64) getNextLocation(path Path64, loc *Location, i *int, highI int) {\n\n	switch *loc {")],
 }
 def main():
